@@ -40,7 +40,7 @@ ASSUMPTIONS = [
     "unreadable-file faults are explored in the thorough tier only",
 ]
 BOUNDS = {
-    "quick": {"max_depth": "S: 9 (1 dir) / 6 (2 dirs); L: 8 (2 uris) / 6 (3 uris)", "versions": "A,B,broken", "time_budget_s": 60},
+    "quick": {"max_depth": "S: 9 (1 dir) / 6 (2 dirs); L: 8 (2 uris) / 6 (3 uris)", "versions": "A,B,broken", "time_budget_s": 90},
     "thorough": {"max_depth": "S: 40 (fixpoint sought)/9/6 for 1/2/3 dirs; L: 12/8/6/5/4 for 2/3/4/5/7 uris; groups explored one after the other", "versions": "A,B,broken,unreadable", "time_budget_s": 780},
 }
 READY = True
@@ -89,7 +89,7 @@ def groups(tier):
     """configurations explored together (lock-step levels), with their share of the time budget"""
     cs = configs(tier)
     if tier == "quick":
-        return [(60, cs)]
+        return [(90, cs)]
     return [
         (200, [c for c in cs if c["mode"] == "S" and c["dirs"] == 1]),
         (170, [c for c in cs if c["mode"] == "S" and c["dirs"] == 2]),
@@ -235,6 +235,7 @@ class World:
         self.recency = {}  # u -> [lo, hi] logical fetch time interval
         self.t = 0
         self.lost_put = set()
+        self.ghost = {}  # u -> set of directories a load of u was ever attempted from (see key())
         self.moddisk = {}  # u -> dict(version, dir, compiled): the module file an earlier compile left (module_directory only)
         for ev in initial_events(cfg):
             self.step(ev)
@@ -452,6 +453,8 @@ class World:
             return "mismatch", "STOP"
         # ---- update the model from the matched alternative
         a = matched
+        if a[0] in ("fresh", "stale-mod", "compile-exc", "read-exc"):
+            self.ghost.setdefault(u, set()).add(a[1])
         self.lost_put.discard(u)
         if a[0] == "same":
             if e["kind"] == "file":
@@ -570,7 +573,11 @@ class World:
         rk = {p: i for i, p in enumerate(pts)}
         rec = tuple(sorted((u, rk[iv[0]], rk[iv[1]]) for u, iv in self.recency.items())) if self.cfg["size"] != -1 else ()
         mods = tuple(sorted((u, md["version"], md["dir"], rel[md["compiled"]]) for u, md in self.moddisk.items()))
-        return (files, tuple(cache), rec, tuple(sorted(self.lost_put)), mods)
+        # ghost component: which directories each URI was ever loaded (or failed to load) from.  The model does not
+        # use it - a failed or evicted load must leave no trace - but keeping it in the key stops the search from
+        # merging "never resolved" with "resolved before, uncached again", which is where a memoised resolution hides.
+        ghost = tuple(sorted((u, tuple(sorted(ds))) for u, ds in self.ghost.items())) if self.cfg["dirs"] > 1 else ()
+        return (files, tuple(cache), rec, tuple(sorted(self.lost_put)), mods, ghost)
 
 
 def _render_of(t):
